@@ -49,6 +49,16 @@ Record injection := {
 
 Definition no_inj : injection := {| inj_pts := []; inj_inc := [] |}.
 
+(** injection lookup: all entries of a hook point, concatenated in order *)
+Definition ipoint_eqb (a b : ipoint) : bool :=
+  match a, b with IReg, IReg | IMid, IMid | IExit, IExit => true | _, _ => false end.
+
+Fixpoint find_inj (p : ipoint) (k : nat) (l : list (ipoint * nat * list act)) : list act :=
+  match l with
+  | [] => []
+  | (p', k', a) :: t => if ipoint_eqb p p' && Nat.eqb k k' then a ++ find_inj p k t else find_inj p k t
+  end.
+
 Inductive op :=
 | OBuild (t : ctype) (p : cparams) (inits : list (N * script)) (ups : list upstep)
 | OPush (c : N) (s : script)
@@ -93,6 +103,7 @@ Inductive event :=
 | ERet (r : retv)
 | EObs (o : obsrec)
 | EAlloc (n : nat)
+| EInj (p : ipoint) (k : nat) (sl : option (nat * nat))  (* the injected actions of hook point (p, k) start here; sl = the slot the pop dequeued *)
 | ELeak                 (* any leak / balance diagnostic of the harness *)
 | EStuck                (* model only: an `unreachable` arm of the code was reached *)
 | EOutOfFuel.           (* model only: a fuelled loop ran out of fuel *)
